@@ -10,6 +10,7 @@
 //!    "steps": [{"open": relpath, "text": t} | {"change": relpath, "text": t}
 //!              | {"request": kind, "path": relpath, "line": l, "character": c}
 //!              | {"request": "inlayHint", "path": relpath, "range": [l0, c0, l1, c1]}
+//!              | {"write_disk": relpath, "text": t}        (rewrites a file of the temp workspace; no message is sent)
 //!              | {"wait_idle": true} | {"sleep_ms": n}],
 //!    "watchdog_ms": 10000, "quiet_ms": 300, "hard_ms": 120000,
 //!    "holds": [{"point": p, "until": q, "max_ms": 400,    (only with hook H2 compiled in) a thread reaching hook
@@ -582,6 +583,14 @@ async fn session(shared: Arc<Shared>, script: Value) -> Value {
             shared.push(json!({"ev": "sent", "step": i, "what": "request", "kind": kind, "id": id, "path": p}));
             d.pending.insert(id, (kind.to_string(), Instant::now(), i));
             d.send(json!({"jsonrpc": "2.0", "id": id, "method": method, "params": params})).await;
+        } else if let Some(p) = st.get("write_disk").and_then(|p| p.as_str()) {
+            is_io = false;
+            let path = shared.root.join(p);
+            if let Some(dir) = path.parent() {
+                let _ = std::fs::create_dir_all(dir);
+            }
+            let ok = std::fs::write(&path, st["text"].as_str().unwrap_or("")).is_ok();
+            shared.push(json!({"ev": "sent", "step": i, "what": "write_disk", "path": p, "ok": ok}));
         } else if st.get("wait_idle").is_some() {
             is_io = false;
             if !d.wait_idle().await {
